@@ -88,8 +88,10 @@ fn gen_angle<S: Dom>(t: &mut Tape) -> (f64, &'static str) {
     let sign = if t.bool() { -1.0 } else { 1.0 };
     let (a, lab) = match t.below(8) {
         0 | 1 | 2 => {
-            let e = t.int(3, min_exp) as i32;
-            (sign * (2.0f64).powi(-e) * (1.0 + t.unit_f64()), "small angle")
+            // two thirds down to 2^-min_exp (where the displacement is still visible against |v|), one third further down
+            // to the bottom of the normal range (rotations by 1e-25 and less: vector part far below eps^2)
+            let e = if t.below(3) < 2 { t.int(3, min_exp) } else { t.int(min_exp, if f32ish { 120 } else { 1000 }) } as i32;
+            (sign * crate::spread::p2f(-e) * (1.0 + t.unit_f64()), "small angle")
         }
         3 => {
             let m = t.int(1, 2) as f64;
@@ -193,13 +195,13 @@ pub fn near_identity<S: Dom>(t: &mut Tape, cx: &mut Cx) -> CaseResult {
     let back = vk::a3(&(vq.conjugate() * (vq * vk::v3(&v))));
     check_near_vec!(cx, back, vd, 2.0 * tol, "conj(q) * (q * v) = v [{} q={:?} v={:?}]", lab, q, v);
     // 5. exact scaling: every operation of q * v is linear in v, so q * (2^k v) = 2^k (q * v) bit for bit unless an
-    // intermediate underflows (then within a few subnormal units)
+    // intermediate underflows (then within a few subnormal units, times 2^k when the unscaled run underflowed and k > 0)
     if kexp != 0 {
         let r0 = vk::a3(&(vq * vk::v3(&base)));
         let r0s = [r0[0] * sc, r0[1] * sc, r0[2] * sc];
         for i in 0..3 {
             cx.count();
-            if !(got3[i] == r0s[i] || (got3[i].f() - r0s[i].f()).abs() <= 64.0 * denorm::<S>()) {
+            if !(got3[i] == r0s[i] || (got3[i].f() - r0s[i].f()).abs() <= 64.0 * denorm::<S>() * sc.f().max(1.0)) {
                 fail!("q * (2^{} v) != 2^{} (q * v) in component {}: got {:?}, want {:?} [{} q={:?} v={:?}]", kexp, kexp, i, got3[i], r0s[i], lab, q, base);
             }
         }
